@@ -202,7 +202,9 @@ func selectCurrentReplicaSet(daemonset *datadoghqv1alpha1.ExtendedDaemonSet, act
 	isEnded, requeueAfter = IsCanaryDeploymentEnded(daemonset.Spec.Strategy.Canary, upToDateRS, now)
 	isPaused, _ := IsCanaryDeploymentPaused(dsAnnotations, upToDateRS)
 	isValid := IsCanaryDeploymentValid(dsAnnotations, upToDateRS.GetName())
-	if isValid || (!isPaused && isEnded) {
+	// A failed canary must never be promoted by elapsed time: it is rolled back instead.
+	isFailed := IsCanaryDeploymentFailed(upToDateRS)
+	if isValid || (!isPaused && !isFailed && isEnded) {
 		return upToDateRS, requeueAfter
 	}
 
